@@ -186,6 +186,7 @@ const prelude = `(set-option :produce-models true)
 (declare-fun fstl (Str) Int)
 (declare-fun lstl (Str) Int)
 (declare-fun mmin (Str) Int)
+(declare-fun nel (Str) Int)
 (define-fun min2 ((a Int) (b Int)) Int (ite (<= a b) a b))
 (declare-fun nsc (Str) Int)
 (define-fun max2 ((a Int) (b Int)) Int (ite (>= a b) a b))
